@@ -456,8 +456,8 @@ func PropC04(c *vs.Case, f Factory) error {
 	if nontrivial {
 		c.NonTrivial()
 	}
-	if len(env.CacheViolations) > 0 {
-		return vs.Violf("C17/cache-mutated", "shared cache objects changed during a sync: %v", env.CacheViolations)
+	if v := env.SharedStateViolation(); v != nil {
+		return v
 	}
 	return nil
 }
